@@ -347,3 +347,20 @@ Definition site_ok (s : site) : bool :=
     then String.eqb peer ("tmp(" ++ cls ++ ")") || String.eqb peer "createtemp"
     else is_tmp cls || in_place fn op cls
   else true.
+
+(** ------------------------------------------------------------------ *)
+(** * Transaction release discipline (regenerated [Gen.TxSites])
+
+    A transaction must be handed to something that releases it — a [defer]
+    rolling it back, a struct field that owns it, or a variable for which such a
+    defer is already registered — with no unguarded [return] between its Begin
+    and that point.  This is the hypothesis under which Lock.v places the
+    deferred rollbacks immediately after each BeginTx. *)
+Definition tx_site := (string * string * string * string * string * list string)%type.
+
+Definition tx_site_ok (t : tx_site) : bool :=
+  let '(_, _, _, guard, _, returns) := t in
+  negb (String.eqb guard "none") &&
+  match returns with [] => true | _ => false end.
+
+Definition nil_list {A} (l : list A) : bool := match l with [] => true | _ => false end.
